@@ -64,6 +64,9 @@ META = dict(
 META["rule"] += (
     " " + "Added after the second round of seeded changes: the climate methods that take the caller's own anomaly array (mutual_information, calculate_similarity_measure, rank_time_series) with shapes (0,N), (0,0), (T,0), (1,1), ... in float64 / float32 / int64.")
 
+META["rule"] += (
+    " " + "Added after the third round: surrogates of another shape than the data for the surrogate test functions (incl. the library's own shorter twin surrogates).")
+
 _state = {"off": 0, "path": None}
 
 
